@@ -144,7 +144,10 @@ theorem step_sig (cfg : Cfg) (s : St) (e : Ev) : sigObs (step cfg s e).2 = expec
       cases r with
       | err e => simp only [expectedSig]; exact sig_bg (BG_andThen (rejoinAfterError_bg _ _ _) (fun _ => BG_nil))
       | ok m g leader n =>
-        simp only [expectedSig, hj, if_false]
+        simp only [expectedSig, hj, if_false, abandonHb_eq, andThen_snd, sig_append]
+        have hpre : sigObs (if s.hbInFlight = true then [Ob.cancelReq ReqKind.hbR] else []) = [] := by
+          split <;> simp [sigObs, bg]
+        rw [hpre, List.nil_append]
         split
         · rfl
         · split <;> simp [sigObs, bg]
